@@ -47,6 +47,10 @@ PINS = [
     ("androguard/decompiler/writer.py", "Writer.visit_new"),
     ("androguard/decompiler/writer.py", "Writer.visit_invoke"),
     ("androguard/decompiler/util.py", "get_type"),
+    ("androguard/decompiler/writer.py", "Writer.visit_short_circuit_condition"),
+    ("androguard/decompiler/basic_blocks.py", "Condition.visit"),
+    ("androguard/decompiler/basic_blocks.py", "CondBlock.visit_cond"),
+    ("androguard/decompiler/basic_blocks.py", "ShortCircuitBlock.visit_cond"),
     ("androguard/decompiler/writer.py", "Writer.write_inplace_if_possible"),
     ("androguard/decompiler/writer.py", "Writer.visit_assign"),
     ("androguard/decompiler/instruction.py", "Constant.visit"),
@@ -790,8 +794,8 @@ def run(ck: Check):
     ck.notes.append("print_parse is proved for every well-formed IR expression tree (JExpr.WF: each operand printed at least as tightly "
                     "as its position needs); trees outside WF (a bare comparison as an operand, `a cmp b` of float compares) are "
                     "printed by the Writer as text that means something else or is not Java - DAD's own pipeline only builds "
-                    "comparisons at the top of a condition. Statement-level text (assignments, declarations, conditions joined by "
-                    "&& / ||, control structure) is not covered by print_parse. That the trees the real pipeline builds are well formed is not "
+                    "comparisons at the top of a condition. Compound conditions (a) && (b) are covered in the state after the Writer's "
+                    "cond1.neg(). Statement-level text (assignments, declarations, control structure) is not covered by print_parse. That the trees the real pipeline builds are well formed is not "
                     "a theorem (no model of the passes); it is checked on every expression tree of ~300 decompiled generated methods "
                     "per quick run (stream 'expression trees of decompiled methods')")
     workdir = tempfile.mkdtemp(prefix="c21-")
